@@ -400,6 +400,22 @@ class Model(object):
         closure written out (its variables are never rebound)"""
         import copy
         for name, value in list(c.class_consts.items()):
+            if isinstance(value, ast.Call) and dotted(value.func) in ("functools.partialmethod", "partialmethod") and value.args \
+                    and isinstance(value.args[0], ast.Name) and value.args[0].id in c.methods \
+                    and not any(isinstance(x, ast.Starred) for x in value.args) and not any(k.arg is None for k in value.keywords):
+                # name = functools.partialmethod(method, <args>):  def name(self): return self.method(<args>)
+                call = ast.Call(func=ast.Attribute(value=ast.Name(id="self", ctx=ast.Load()), attr=value.args[0].id, ctx=ast.Load()),
+                                args=[copy.deepcopy(x) for x in value.args[1:]], keywords=[copy.deepcopy(k) for k in value.keywords])
+                fn = ast.FunctionDef(name=name, args=ast.arguments(posonlyargs=[], args=[ast.arg(arg="self")], vararg=None, kwonlyargs=[],
+                                                                   kw_defaults=[], kwarg=None, defaults=[]),
+                                     body=[ast.Return(value=call)], decorator_list=[], returns=None, type_comment=None)
+                if hasattr(fn, "type_params"):
+                    fn.type_params = []
+                for n in ast.walk(fn):
+                    ast.copy_location(n, value)
+                ast.fix_missing_locations(fn)
+                c.methods[name] = fn
+                continue
             if not (isinstance(value, ast.Call) and isinstance(value.func, ast.Name) and value.func.id in c.module.functions):
                 continue
             fac = c.module.functions[value.func.id]
